@@ -13,16 +13,32 @@ pub struct Gen {
     pub ops: Vec<String>,
     /// FT programs are text templates with their own reference model
     pub ft: Option<FtSpec>,
+    /// plain text programs (no harness AST)
+    pub text: Option<String>,
 }
 impl Gen {
     pub fn tags(&self) -> Vec<String> {
         let mut t = match &self.ft {
             Some(ft) => {
                 let mut t = vec![format!("ft_tasks_{}", ft.tasks.len())];
+                if ft.tasks.iter().any(|x| x.period > 0.0) {
+                    t.push("ft_rescheduling_task".into());
+                }
                 if ft.tasks.iter().filter(|x| x.period > 0.0).count() >= 2 {
                     t.push("ft_two_or_more_rescheduling_tasks".into());
                 }
                 t
+            }
+            None if self.text.is_some() => {
+                let t = self.text.as_ref().unwrap();
+                let mut v = vec![];
+                if t.contains("  let l") || t.contains("build(") {
+                    v.push("boxed_value_created_per_dsp_call".to_string());
+                }
+                if t.contains("| | sum(") {
+                    v.push("closure_created_per_dsp_call".to_string());
+                }
+                v
             }
             None => features(&self.prog),
         };
@@ -30,6 +46,9 @@ impl Gen {
         t
     }
     pub fn source(&self) -> String {
+        if let Some(t) = &self.text {
+            return t.clone();
+        }
         match &self.ft {
             Some(ft) => ft.source(),
             None => print(&self.prog),
@@ -188,7 +207,7 @@ pub fn fx_decode(mut idx: u64) -> Option<Gen> {
     };
     let ops = vec![pe(&e, 0)];
     let prog = Prog { items: vec![fdef("dsp", &[DSP_IN], e, Shape::F)] };
-    Some(Gen { prog, family: "FX", inputs: 1, ops, ft: None })
+    Some(Gen { prog, family: "FX", inputs: 1, ops, ft: None, text: None })
 }
 
 // ================================================================== FS: state layout
@@ -425,7 +444,7 @@ pub fn fs_decode(idx: u64, k: u32) -> Option<Gen> {
         items.push(helper(h, &mut hs));
     }
     items.push(fdef("dsp", &[DSP_IN], E::Block(c.stmts, Some(Box::new(ret))), shape));
-    Some(Gen { prog: Prog { items }, family: "FS", inputs: 1, ops: c.ops, ft: None })
+    Some(Gen { prog: Prog { items }, family: "FS", inputs: 1, ops: c.ops, ft: None, text: None })
 }
 
 // ================================================================== FC: closures
@@ -642,7 +661,7 @@ pub fn fc_decode(idx: u64, k: u32) -> Option<Gen> {
         }
     }
     items.push(fdef("dsp", &[DSP_IN], E::Block(c.stmts, Some(Box::new(ret))), shape));
-    Some(Gen { prog: Prog { items }, family: "FC", inputs: 1, ops: c.ops, ft: None })
+    Some(Gen { prog: Prog { items }, family: "FC", inputs: 1, ops: c.ops, ft: None, text: None })
 }
 fn mkcounter() -> Item {
     fdef(
@@ -847,7 +866,7 @@ pub fn fa_decode(idx: u64, k: u32) -> Option<Gen> {
         }
     }
     items.push(fdef("dsp", &[DSP_IN], E::Block(c.stmts, Some(Box::new(ret))), shape));
-    Some(Gen { prog: Prog { items }, family: "FA", inputs: 1, ops: c.ops, ft: None })
+    Some(Gen { prog: Prog { items }, family: "FA", inputs: 1, ops: c.ops, ft: None, text: None })
 }
 
 // ================================================================== FT: scheduled tasks
@@ -886,7 +905,7 @@ pub fn ft_decode(idx: u64, k: u32) -> Option<Gen> {
     }
     let spec = FtSpec { tasks };
     let ops = spec.tasks.iter().enumerate().map(|(i, t)| format!("task{i}: {t:?}")).collect();
-    Some(Gen { prog: Prog::default(), family: "FT", inputs: 0, ops, ft: Some(spec) })
+    Some(Gen { prog: Prog::default(), family: "FT", inputs: 0, ops, ft: Some(spec), text: None })
 }
 impl FtSpec {
     pub fn source(&self) -> String {
@@ -952,6 +971,106 @@ impl FtSpec {
         }
         out
     }
+}
+
+// ================================================================== FB: boxed recursive variants (text templates)
+
+const FB_RADIX: u64 = 12;
+pub fn fb_count(k: u32) -> u64 {
+    seq_count(FB_RADIX, k)
+}
+pub fn fb_decode(idx: u64, k: u32) -> Option<Gen> {
+    let digits = seq_decode(idx, FB_RADIX, k);
+    let mut lists: Vec<String> = vec![];
+    let mut floats: Vec<String> = vec!["x".into()];
+    let mut clos: Vec<String> = vec![];
+    let mut body = String::new();
+    let mut ops = vec![];
+    let mut n = 0;
+    let mut use_global = false;
+    for d in digits {
+        n += 1;
+        let lastf = floats.last().unwrap().clone();
+        match d {
+            0 => {
+                body.push_str(&format!("  let l{n} = Cons({lastf}, Cons(1.0, Nil))\n"));
+                lists.push(format!("l{n}"));
+                ops.push("new list".to_string());
+            }
+            1 => {
+                let l = lists.last()?.clone();
+                body.push_str(&format!("  let l{n} = Cons(2.0, {l})\n"));
+                lists.push(format!("l{n}"));
+                ops.push("cons onto last (sharing)".into());
+            }
+            2 => {
+                let l = lists.last()?.clone();
+                body.push_str(&format!("  let s{n} = sum({l})\n"));
+                floats.push(format!("s{n}"));
+                ops.push("sum(last)".into());
+            }
+            3 => {
+                let l = lists.last()?.clone();
+                body.push_str(&format!("  let s{n} = match {l} {{\n    Nil => 0.0,\n    Cons(h, tl) => h + sum(tl)\n  }}\n"));
+                floats.push(format!("s{n}"));
+                ops.push("match last".into());
+            }
+            4 => {
+                let l = lists.last()?.clone();
+                body.push_str(&format!("  let f{n} = | | sum({l})\n"));
+                clos.push(format!("f{n}"));
+                ops.push("closure capturing list".into());
+            }
+            5 => {
+                let f = clos.last()?.clone();
+                body.push_str(&format!("  let s{n} = {f}()\n"));
+                floats.push(format!("s{n}"));
+                ops.push("call closure".into());
+            }
+            6 => {
+                use_global = true;
+                body.push_str(&format!("  let s{n} = sum(gl)\n"));
+                floats.push(format!("s{n}"));
+                ops.push("sum(global list)".into());
+            }
+            7 => {
+                use_global = true;
+                body.push_str(&format!("  let l{n} = Cons({lastf}, gl)\n"));
+                lists.push(format!("l{n}"));
+                ops.push("cons onto global list".into());
+            }
+            8 => {
+                let l = lists.last()?.clone();
+                body.push_str(&format!("  let l{n} = tail_or_nil({l})\n"));
+                lists.push(format!("l{n}"));
+                ops.push("tail".into());
+            }
+            9 => {
+                let l = lists.last()?.clone();
+                body.push_str(&format!("  let t{n} = ({l}, {lastf})\n  let s{n} = sum(t{n}.0) + t{n}.1\n"));
+                floats.push(format!("s{n}"));
+                ops.push("list in tuple".into());
+            }
+            10 => {
+                body.push_str(&format!("  let l{n} = build({lastf} % 3.0)\n"));
+                lists.push(format!("l{n}"));
+                ops.push("recursive builder".into());
+            }
+            _ => {
+                let l = lists.last()?.clone();
+                body.push_str(&format!("  let s{n} = len_acc({l}, 0.0)\n"));
+                floats.push(format!("s{n}"));
+                ops.push("tail-recursive length".into());
+            }
+        }
+    }
+    let ret = floats.last().unwrap().clone();
+    let mut src = String::from("type rec List = Nil | Cons(float, List)\nfn sum(list: List) -> float {\n  match list {\n    Nil => 0.0,\n    Cons(head, tail) => head + sum(tail)\n  }\n}\nfn tail_or_nil(list: List) -> List {\n  match list {\n    Nil => Nil,\n    Cons(head, tail) => tail\n  }\n}\nfn build(n: float) -> List {\n  if (n > 0.0) Cons(n, build(n - 1.0)) else Nil\n}\nfn len_acc(list: List, acc: float) -> float {\n  match list {\n    Nil => acc,\n    Cons(head, tail) => len_acc(tail, acc + 1.0)\n  }\n}\n");
+    if use_global {
+        src.push_str("let gl = Cons(7.0, Cons(8.0, Nil))\n");
+    }
+    src.push_str(&format!("fn dsp(x: float) -> float {{\n{body}  {ret}\n}}\n"));
+    Some(Gen { prog: Prog::default(), family: "FB", inputs: 1, ops, ft: None, text: Some(src) })
 }
 
 // ================================================================== structural features (tags)
@@ -1062,6 +1181,31 @@ pub fn features(p: &Prog) -> Vec<String> {
     }
     if factory_calls >= 2 {
         tags.push("closure_factory_called_more_than_once".into());
+    }
+    // does dsp create a closure object on every call? (lambda, factory call, top-level function used as a value)
+    let fn_names: Vec<String> = p.items.iter().filter_map(|it| if let Item::Fn(f) = it { Some(f.name.clone()) } else { None }).collect();
+    for it in &p.items {
+        if let Item::Fn(f) = it {
+            if f.name != "dsp" {
+                continue;
+            }
+            let mut creates = false;
+            walk(&f.body, &mut |x| match x {
+                E::Lambda(..) => creates = true,
+                E::Call(n, args, _) => {
+                    if factories.contains(n) || n == "mkadd" {
+                        creates = true;
+                    }
+                    if args.iter().any(|a| matches!(a, E::Var(v) if fn_names.contains(v))) {
+                        creates = true;
+                    }
+                }
+                _ => {}
+            });
+            if creates {
+                tags.push("closure_created_per_dsp_call".into());
+            }
+        }
     }
     let mut add = |t: &str| {
         if !tags.iter().any(|x| x == t) {
